@@ -190,7 +190,23 @@ func (p *Prog) index(pkg *packages.Package) {
 }
 
 // Fn returns the function with the given key or nil.
-func (p *Prog) Fn(key string) *Func { return p.Funcs[key] }
+func (p *Prog) Fn(key string) *Func {
+	if f := p.Funcs[key]; f != nil {
+		return f
+	}
+	// An unexported type that was exported (or the reverse) is the same anchor: fall back to a
+	// case-insensitive match when it is unique.
+	var hit *Func
+	for k, f := range p.Funcs {
+		if strings.EqualFold(k, key) {
+			if hit != nil {
+				return nil
+			}
+			hit = f
+		}
+	}
+	return hit
+}
 
 // Position renders a position relative to the root.
 func (p *Prog) Position(pos token.Pos) string {
